@@ -39,9 +39,10 @@ theorem lease_frees_lock (s : St) : (leaseExpires s).lock = none ∧ (leaseExpir
 
 /-- while the lock is free, the next process that tries obtains it: nobody is blocked for longer than the lease -/
 theorem free_lock_is_obtained (s : St) (p : Pid) (hpc : (s.procs p).pc = .lock) (hl : s.lock = none) :
-    (step s p).1.lock = some p ∧ ((step s p).1.procs p).pc = .reread := by
+    (step s p).1.lock = some p ∧ inCrit ((step s p).1.procs p).pc = true := by
   unfold step
   simp [hpc, hl]
+  split <;> simp [inCrit]
 
 /-- **after a crash** between the provider's answer and the write-back the stored token is stale; the next refresh is rejected CLEANLY:
     the provider refuses, nothing is written, the lock is released and the request is answered 401 (session reported invalid) -/
@@ -54,6 +55,6 @@ theorem stale_session_reported_invalid (s : St) (p : Pid) (hpc : (s.procs p).pc 
 -- non-vacuity: the refresher is killed right after the provider answered; the lease passes; a second refresher is answered 401, no lock is left
 example : let s1 := runAll (init (fun _ => .refresh) 0) [.run 0, .run 0, .run 0, .run 0, .run 0, .crash 0, .run 1, .run 1, .run 1, .run 1]
     let s2 := runAll (leaseExpires s1) [.run 1, .run 1, .run 1, .run 1, .run 1]
-    s1.lock = some 0 ∧ (s1.procs 1).pc = .lock ∧ s2.lock = none ∧ (s2.procs 1).status = 401 ∧ s2.sess = some ⟨0, false, true⟩ := by decide
+    s1.lock = some 0 ∧ (s1.procs 1).pc = .lock ∧ s2.lock = none ∧ (s2.procs 1).status = 401 ∧ s2.sess = some ⟨0, false, true, 0⟩ := by decide
 
 end Ww.Proofs.C10
